@@ -25,6 +25,33 @@ CLAIMED = {
         note=NOTE + "Up-to-rounding means 1e-9*scale; IEEE rounding itself is outside the model. Known finding K2 (FMF constant) is printed, not alarmed.",
         technique="Lean 4 theorems kernel = published formula (Finset sums, sup', Real.sqrt/log) + three-leg differential check (code / Lean model / exact Decimal)",
     ),
+    "C06": dict(
+        text="Proof: dominance monotonicity proved in Lean for the kernels of the model, any shape, positive weights, any objective mix: "
+             "strict for WSM, RatioMOORA, WPM, FMF (code and formula); <= for ReferencePointMOORA and TOPSIS with all five Minkowski-family "
+             "metrics, where the positivity of d+ + d- is derived from the dominating pair itself; corollaries rank a <= rank b through the "
+             "dense-rank theory, and identical rows share score and rank. Tie to the code: matrices forced to contain dominating pairs and "
+             "duplicates, pairwise oracle on the implementation with the rounding margin, dominance tables model = dm.dominance = oracle.",
+        note=NOTE + "Margin 2e-9*scale; BLAS summation order on identical rows cannot be exhibited by the model.",
+        technique="Lean 4 monotonicity theorems over ordered fields / R on the kernel model + differential pairwise oracle on generated dominating pairs",
+    ),
+    "C07": dict(
+        text="Proof: the accessor model (pair kernel, reverted-flag cache, bt, eq, dominance(strict), compare, dominated, recursive "
+             "dominators_of with explicit recursion budget, has_loops, lru_cache as a state machine) is proved equal to the definition of "
+             "(strict) dominance for any shape: counts partition the criteria, bt+bt'+eq = n, dominance iff definition, irreflexive/"
+             "asymmetric/transitive, dominated iff exists dominator, dominators_of terminates within m+1 frames and returns exactly the "
+             "(transitive-closure) dominators, has_loops = False, memo transparent for every call order. Tie: every accessor output vs "
+             "the Lean model and a definition-based oracle, random call orders, exhaustive small alphabet in the thorough tier.",
+        note=NOTE + "pandas frame construction and methodtools.lru_cache are external (modelled).",
+        technique="Lean 4 theorems model-of-accessor = definition (Finset counting, strict partial order, fuelled recursion) + differential check incl. exhaustive small matrices",
+    ),
+    "C18": dict(
+        text="Proof: the repaired untied rank (double stable argsort) is proved equal to the closed form, a permutation of 1..n, strict-"
+             "preference preserving, ties by order of appearance, identity without ties (any length); the pre-fix argsort+1 is refuted by a "
+             "decided witness; comparator frame lookup by label for any listing order, tables square with the self-comparison on the "
+             "diagonal. Tie: all dense rankings up to length 7 (thorough, exhaustive) and random ones, comparators over reordered listings.",
+        note=NOTE + "corr/cov/r2/distance statistics are pandas/sklearn/scipy (external): only shape and diagonal are claimed.",
+        technique="Lean 4 theorems on a list model of untied_rank_/to_dataframe + differential check, exhaustive over short dense rankings",
+    ),
 }
 PENDING = "check not built yet (planned in DESIGN.md section 6); not claimed until its model, theorems and correspondence exist"
 
